@@ -654,3 +654,157 @@ def ob_h_shared(ob):
 
     ob.note("this obligation is the one registered as C01.b; it is also decided here because the two-centre integrals use the MOPAC floor on h_pp; the derivative kernel and the energy kernel must be fed the same multipole parameters")
     _m.ob_b(ob)
+
+
+# ------------------------------------------------------------------------------------------------------------------------
+# e: the 22 local-frame two-centre integrals vs the Dewar-Thiel point-charge multipole model, generated from the charge
+#    configurations (not transcribed from MOPAC's formulas)
+# ------------------------------------------------------------------------------------------------------------------------
+def _dt_configs(D1, D2):
+    """point-charge configurations (charge, (x, y, z)) of the multipoles of the sp charge distributions and the index of the
+    additive term they carry (0 monopole, 1 dipole, 2 quadrupole)"""
+    Z0 = z3.RealVal(0)
+    q = ([(z3.RealVal(1), (Z0, Z0, Z0))], 0)
+    half, quart = z3.RealVal("1/2"), z3.RealVal("1/4")
+    mu_z = ([(half, (Z0, Z0, D1)), (-half, (Z0, Z0, -D1))], 1)
+    mu_x = ([(half, (D1, Z0, Z0)), (-half, (-D1, Z0, Z0))], 1)
+    Qzz = ([(quart, (Z0, Z0, 2 * D2)), (-half, (Z0, Z0, Z0)), (quart, (Z0, Z0, -2 * D2))], 2)
+    Qxx = ([(quart, (2 * D2, Z0, Z0)), (-half, (Z0, Z0, Z0)), (quart, (-2 * D2, Z0, Z0))], 2)
+    Qyy = ([(quart, (Z0, 2 * D2, Z0)), (-half, (Z0, Z0, Z0)), (quart, (Z0, -2 * D2, Z0))], 2)
+    Qxz = ([(quart, (D2, Z0, D2)), (quart, (-D2, Z0, -D2)), (-quart, (D2, Z0, -D2)), (-quart, (-D2, Z0, D2))], 2)
+    Qxy = ([(quart, (D2, D2, Z0)), (quart, (-D2, -D2, Z0)), (-quart, (D2, -D2, Z0)), (-quart, (-D2, D2, Z0))], 2)
+    # charge distributions of orbital products: s s, s sigma, s pi(x), sigma sigma, pi pi (x), sigma pi(x), pi(x) pi(y), pi(y) pi(y)
+    return {"ss": [q], "so": [mu_z], "sp": [mu_x], "oo": [q, Qzz], "pp": [q, Qxx], "po": [Qxz], "p*p": [Qxy], "p*p*": [q, Qyy]}
+
+
+def _dt_integral(distA, distB, cfgA, cfgB, rhoA, rhoB, r, EV, sq):
+    """[distA on atom A at the origin | distB on atom B at (0, 0, -r)] in the point-charge model; sq(x) = the engine's sqrt"""
+    tot = z3.RealVal(0)
+    for (chA, lA) in cfgA[distA]:
+        for (chB, lB) in cfgB[distB]:
+            a = (rhoA[lA] + rhoB[lB]) * (rhoA[lA] + rhoB[lB])
+            for cA, pA in chA:
+                for cB, pB in chB:
+                    dx, dy, dz = pB[0] - pA[0], pB[1] - pA[1], (pB[2] - r) - pA[2]
+                    tot = tot + EV * cA * cB / sq(dx * dx + dy * dy + dz * dz + a)
+    return tot
+
+
+_DT_ORDER = [("ss", "ss"), ("so", "ss"), ("oo", "ss"), ("pp", "ss"), ("ss", "so"), ("so", "so"), ("sp", "sp"), ("oo", "so"), ("pp", "so"), ("po", "sp"), ("ss", "oo"), ("ss", "pp"), ("so", "oo"), ("so", "pp"), ("sp", "po"), ("oo", "oo"), ("pp", "oo"), ("oo", "pp"), ("pp", "pp"), ("po", "po"), ("pp", "p*p*"), ("p*p", "p*p")]
+
+
+def replay_local_integrals(kind):
+    """float64: the real local-frame integral routine vs direct summation of the point-charge model at one geometry"""
+    import math
+    from seqm.seqm_functions.two_elec_two_center_int_local_frame import two_elec_two_center_int_local_frame as TETCILF
+    from seqm.seqm_functions.constants import Constants, ev
+
+    ni = torch.tensor([8])
+    nj = torch.tensor([6 if kind == "XX" else 1])
+    vals = dict(da=0.75, db=0.66, qa=0.6, qb=0.5, r0a=0.8, r0b=0.875, r1a=0.71, r1b=0.6, r2a=0.67, r2b=0.625)
+    r = 2.3
+    t = lambda x: torch.tensor([x], dtype=torch.float64)
+    out = TETCILF(ni, nj, t(r), Constants().tore, *[t(vals[n]) for n in ("da", "db", "qa", "qb", "r0a", "r0b", "r1a", "r1b", "r2a", "r2b")], "AM1")
+    ri = (out[2] if kind == "XX" else out[1])[0]
+    fl = lambda x: float(x.as_fraction()) if z3.is_rational_value(x) else float(str(z3.simplify(x)))
+
+    class _F:  # float arithmetic stand-in for the z3 spec builder
+        pass
+
+    def spec(dA, dB):
+        cA, cB = _dt_cfg_float(vals["da"], vals["qa"]), _dt_cfg_float(vals["db"], vals["qb"])
+        rhoA, rhoB = [vals["r0a"], vals["r1a"], vals["r2a"]], [vals["r0b"], vals["r1b"], vals["r2b"]]
+        tot = 0.0
+        for chA, lA in cA[dA]:
+            for chB, lB in cB[dB]:
+                a = (rhoA[lA] + rhoB[lB]) ** 2
+                for c1, p1 in chA:
+                    for c2, p2 in chB:
+                        d2 = (p2[0] - p1[0]) ** 2 + (p2[1] - p1[1]) ** 2 + (p2[2] - r - p1[2]) ** 2
+                        tot += ev * c1 * c2 / math.sqrt(d2 + a)
+        return tot
+
+    worst = 0.0
+    pairs = _DT_ORDER if kind == "XX" else _DT_ORDER[:4]
+    for k, (dA, dB) in enumerate(pairs):
+        want = spec(dA, dB) if (dA, dB) != ("p*p", "p*p") else 0.5 * (spec("pp", "pp") - spec("pp", "p*p*"))
+        worst = max(worst, abs(ri[k].item() - want))
+    print("replay local-frame integrals (%s): max |code - point-charge model| = %.3e eV over %d integrals" % (kind, worst, len(pairs)))
+    return worst > 1e-9
+
+
+def _dt_cfg_float(D1, D2):
+    q = ([(1.0, (0.0, 0.0, 0.0))], 0)
+    mu_z = ([(0.5, (0, 0, D1)), (-0.5, (0, 0, -D1))], 1)
+    mu_x = ([(0.5, (D1, 0, 0)), (-0.5, (-D1, 0, 0))], 1)
+    Qzz = ([(0.25, (0, 0, 2 * D2)), (-0.5, (0, 0, 0)), (0.25, (0, 0, -2 * D2))], 2)
+    Qxx = ([(0.25, (2 * D2, 0, 0)), (-0.5, (0, 0, 0)), (0.25, (-2 * D2, 0, 0))], 2)
+    Qyy = ([(0.25, (0, 2 * D2, 0)), (-0.5, (0, 0, 0)), (0.25, (0, -2 * D2, 0))], 2)
+    Qxz = ([(0.25, (D2, 0, D2)), (0.25, (-D2, 0, -D2)), (-0.25, (D2, 0, -D2)), (-0.25, (-D2, 0, D2))], 2)
+    Qxy = ([(0.25, (D2, D2, 0)), (0.25, (-D2, -D2, 0)), (-0.25, (D2, -D2, 0)), (-0.25, (-D2, D2, 0))], 2)
+    return {"ss": [q], "so": [mu_z], "sp": [mu_x], "oo": [q, Qzz], "pp": [q, Qxx], "po": [Qxz], "p*p": [Qxy], "p*p*": [q, Qyy]}
+
+
+@obligation(PID, "e", title="the local-frame two-centre two-electron integrals (22 for a heavy-heavy pair, 4 for heavy-hydrogen, 1 for H-H) equal the Dewar-Thiel point-charge multipole model — interactions of the monopole/dipole/linear- and square-quadrupole charge configurations of the orbital products, damped by the additive terms — for every distance and every value of the charge separations and additive terms")
+def ob_e(ob):
+    from engine import radical
+    from seqm.seqm_functions.two_elec_two_center_int_local_frame import two_elec_two_center_int_local_frame as TETCILF
+    from seqm.seqm_functions.constants import Constants, ev
+
+    ob.encodes(TETCILF)
+    ob.bound("one pair per class (O-C, O-H, H-H); distance r > 0, dipole and quadrupole separations and the six additive terms symbolic; the specification is generated from the point-charge configurations of the multipoles (atom A at the origin, atom B at (0,0,-r), common axes), not transcribed from the code's formulas")
+    ob.assume("identities contain many independent square roots: normal form multilinear in the roots by sympy (engine/radical.py, validated numerically), coefficient polynomials decided by the SMT solver; for the unchanged code every coefficient vanishes identically after normalisation")
+    tore = Constants().tore
+    for kind in ("XX", "XH", "HH"):
+        S.reset()
+        S.ST.sqrt_mode = "canon"
+        r, EV = z3.Reals("r EV")
+        for k_, t_ in ((ev, EV), (ev / 2.0, EV / 2), (ev / 4.0, EV / 4), (ev / 8.0, EV / 8), (ev / 16.0, EV / 16)):
+            S.FLOAT_ALIAS[k_] = t_
+        try:
+            names = ["da", "db", "qa", "qb", "r0a", "r0b", "r1a", "r1b", "r2a", "r2b"]
+            P = {n: z3.Real(n) for n in names}
+            assm = [r > 0, EV > 0] + [P[n] > 0 for n in names]
+            par = lambda n: SymTensor(np.array([P[n]], dtype=object))
+            ni = torch.tensor([1 if kind == "HH" else 8])
+            nj = torch.tensor([6 if kind == "XX" else 1])
+            with symbolic_factories():
+                out = TETCILF(ni, nj, SymTensor(np.array([r], dtype=object)), tore, *[par(n) for n in names], "AM1")
+        finally:
+            S.FLOAT_ALIAS.clear()
+        code = {"XX": out[2], "XH": out[1], "HH": out[0]}[kind].a.reshape(-1)
+        cfgA, cfgB = _dt_configs(P["da"], P["qa"]), _dt_configs(P["db"], P["qb"])
+        rhoA, rhoB = [P["r0a"], P["r1a"], P["r2a"]], [P["r0b"], P["r1b"], P["r2b"]]
+        pairs = {"XX": _DT_ORDER, "XH": _DT_ORDER[:4], "HH": _DT_ORDER[:1]}[kind]
+        ob.require(code.size == len(pairs), "unexpected number of local-frame integrals for %s: %d" % (kind, code.size))
+        for k, (dA, dB) in enumerate(pairs):
+            if (dA, dB) == ("p*p", "p*p"):
+                # published model (Dewar & Thiel 1977): (xy|xy) is not taken from the square-quadrupole configuration but
+                # from the relation 1/2 [(xx|xx) - (xx|yy)], which keeps the integrals rotationally invariant
+                spec = (_dt_integral("pp", "pp", cfgA, cfgB, rhoA, rhoB, r, EV, S.e_sqrt) - _dt_integral("pp", "p*p*", cfgA, cfgB, rhoA, rhoB, r, EV, S.e_sqrt)) / 2
+            else:
+                spec = _dt_integral(dA, dB, cfgA, cfgB, rhoA, rhoB, r, EV, S.e_sqrt)
+            lab = "e:%s (%s|%s)" % (kind, dA, dB)
+            coefs, bundle = radical.coefficients(code[k] - spec)
+            dev = radical.validate(bundle, ntries=1, seed=k)
+            ob.require(dev <= 1e-12, "radical normal form failed its validation for %s (%.2e)" % (lab, dev))
+            bad = None
+            for clab, cz in coefs:
+                v, m = smt.prove(cz == 0, assm, lab + " coefficient of " + clab, "nra", 60)
+                if v == "sat":
+                    bad = clab
+                    break
+                if v != "unsat":
+                    bad = "?"
+                    break
+            if bad is None:
+                ob.discharged(lab)
+            elif bad == "?":
+                ob.inconclusive(lab)
+            else:
+                if replay_local_integrals(kind):
+                    ob.violation("local-frame integral %d (%s|%s) of a %s pair is not the Dewar-Thiel point-charge interaction of the two charge distributions" % (k + 1, dA, dB, kind), {"module": "harness.C06", "func": "replay_local_integrals", "args": {"kind": kind}})
+                    return
+                raise HarnessError("local-frame integral counterexample did not reproduce (%s)" % lab)
+    x, y = z3.Reals("x y")
+    expect_refuted(ob, x * y == 0, [x > 0, y > 0], "twin: a non-zero coefficient polynomial is refuted", "nra")
